@@ -55,3 +55,25 @@ package expand
 //@     op != syntax.Rem && op != syntax.Pow && op != syntax.Eql && op != syntax.Neq && op != syntax.Lss && op != syntax.Gtr &&
 //@     op != syntax.Leq && op != syntax.Geq && op != syntax.And && op != syntax.Or && op != syntax.Xor && op != syntax.Shl &&
 //@     op != syntax.Shr && op != syntax.Comma, err != nil)
+
+// ---- C34: environment lists ----
+
+// The comparator of listEnviron.Get. Its preconditions are the values Get assigns to the captured variables
+// before creating the closure (the library calls it, so they are not re-checked at call sites: listed as assumed).
+//@ func listEnviron.Get$1
+//@ props C34
+//@ requires [captured-endpos] *endpos == len(name) + 1
+//@ requires [captured-eqpos] *eqpos == len(name)
+//@ ensures [zero-means-long] implies(result == 0, len(pair) > len(name))
+
+// Get never panics: a hit of the binary search is an element "name=value", long enough to cut the value off.
+//@ func listEnviron.Get
+//@ props C34
+//@ assume [from-comparator.zero-means-long] forall(p, string, implies(searchHit(p, name), len(p) > len(name)))
+//@ ensures [unset-or-exported-string] !result.Set || (result.Exported && result.Kind == String)
+
+//@ func funcEnviron.Get
+//@ props C34
+//@ ensures [empty-is-unset] result.Set == (result.Str != "")
+//@ ensures [set-is-exported-string] implies(result.Set, result.Exported && result.Kind == String && !result.Local && !result.ReadOnly)
+//@ ensures [unset-is-zero] implies(!result.Set, !result.Exported && result.Kind == Unknown && result.Str == "")
